@@ -180,6 +180,19 @@ def run_case(case, observe_each=False, full=False):
         params['task_name'] = case.get('target') or prog['target']
     if case.get('env'):
         params['env'] = case['env']
+    if case.get('warm'):
+        # an earlier execution of the same definitions with other parameters,
+        # run to the end in the same world: whatever it leaves in the
+        # engine's in-memory caches must not influence the measured run
+        wparams = dict(params)
+        if case['warm'].get('env') is not None:
+            wparams['env'] = case['warm']['env']
+        wk, wv = sim.start_workflow(case.get('wf_name') or prog['name'],
+                                    dict(case['warm'].get('input') or {}),
+                                    **wparams)
+        if wk == 'ok':
+            run_until_quiet(Schedule({'policy': 'fifo'}), step_budget(prog))
+            res.warm_wf_ex_id = wv.id
     kind, val = sim.start_workflow(case.get('wf_name') or prog['name'],
                                    dict(case.get('input') or {}), **params)
     if kind != 'ok':
@@ -263,9 +276,29 @@ def verdict(res, out_keys=None):
     return (w['state'], tasks, output)
 
 
-def canon_rows(res, with_info=False, error_output=True):
-    """Canonical final rows with ids/timestamps erased (C02/C06/C10)."""
+def canon_rows(res, with_info=False, error_output=True, with_input=False,
+               root=None):
+    """Canonical final rows with ids/timestamps erased (C02/C06/C10).
+    with_input: the evaluated input of every action execution is part of the
+    rows; root: only the execution tree of that root execution."""
     out = {'wf': [], 'task': []}
+    if root is not None:
+        keep_wf = {w['id'] for w in res.snap['wf'].values()
+                   if w['id'] == root or w['root_execution_id'] == root}
+        keep_t = {t['id'] for t in res.snap['task'].values()
+                  if t['wf_ex_id'] in keep_wf}
+        snap = {'wf': {k: v for k, v in res.snap['wf'].items()
+                       if k in keep_wf},
+                'task': {k: v for k, v in res.snap['task'].items()
+                         if k in keep_t},
+                'action': {k: v for k, v in res.snap['action'].items()
+                           if v['task_execution_id'] in keep_t}}
+
+        class _R(object):
+            pass
+        r2 = _R()
+        r2.snap = snap
+        return canon_rows(r2, with_info, error_output, with_input)
     acts_by_task = {}
     for a in res.snap['action'].values():
         acts_by_task.setdefault(a['task_execution_id'], []).append(a)
@@ -289,7 +322,9 @@ def canon_rows(res, with_info=False, error_output=True):
         acts = acts_by_task.get(t['id'], [])
         a_rows = sorted((a['index'] if a['index'] is not None else -1,
                          a['state'], bool(a['accepted']),
-                         sim._canon(a['output'])) for a in acts)
+                         sim._canon(a['output'])) +
+                        ((sim._canon(a['input']),) if with_input else ())
+                        for a in acts)
         s_rows = sorted((w['name'], w['state'])
                         for w in subs_by_task.get(t['id'], []))
         out['task'].append((wf_name.get(t['wf_ex_id']), t['name'], t['state'],
